@@ -248,7 +248,14 @@ def rebuilds(P, R, H):
         # name and value of the entry are what is configured
         for a in adds:
             ar = a.ev['args']
-            R.ob('C17.MPT.3', on_path(ar[0], 'name') and on_path(ar[1], 'value'), a, 'each entry configures the service named by the entry with the protocol given as its value', key='xquery:args')
+            okargs = len(ar) >= 2 and on_path(ar[0], 'name') and on_path(ar[1], 'value')
+            if not okargs and len(ar) == 1 and 'conf_node_string' in ((ar[0].get('t') or '') if isinstance(ar[0], dict) else ''):
+                # the entry itself is handed over: the configuring function reads its name and its value
+                cs = P.need_fn('iauth_xquery_config_service')
+                p0 = cs.params[0]
+                reads = {x.get('field') for t in cs.sites() for ex in rules.event_exprs(t.ev) for x in walk(ex) if x.get('k') == 'mem' and root_var(x) is not None and root_var(x)['name'] == p0}
+                okargs = {'name', 'value'} <= reads
+            R.ob('C17.MPT.3', okargs, a, 'each entry configures the service named by the entry with the protocol given as its value', key='xquery:args')
     c = H.get(CL)
     if c is not None:
         init = [s for s in c.calls('iauth_class_rules_init')]
